@@ -39,6 +39,7 @@ type DecSample struct {
 	PTS      int64 // MPEG-TS raw
 	NUnits   int   // MPEG-TS: units in the PES
 	FirstIdx int   // MPEG-TS audio: tag of first AU; all AUs must be consecutive
+	AUDs     int   // fMP4, H264: access unit delimiters stored in the sample
 }
 
 // FragInfo is a decoded fragment.
@@ -928,6 +929,18 @@ func (h *History) decodeURI(r *Round, u *URIRec, first bool) {
 						k := c.Tracks[tr].Kind
 						if k == media.H264 || k == media.H265 {
 							norm = normAVCC(k, s.Payload)
+						}
+						if k == media.H264 {
+							for b := s.Payload; len(b) >= 5; {
+								n := int(b[0])<<24 | int(b[1])<<16 | int(b[2])<<8 | int(b[3])
+								if n <= 0 || n > len(b)-4 {
+									break
+								}
+								if b[4]&0x1f == 9 {
+									ds.AUDs++
+								}
+								b = b[4+n:]
+							}
 						}
 						ds.Idx, ds.BytesOK = h.matchSample(tr, norm)
 					}
